@@ -27,13 +27,32 @@ ASSUMPTIONS = [
 
 NOTSET = rs.state.markers.STATE_NOTSET
 INDICES = [0, 1, 2, 3, 7, 31]
+import enum
+import numpy
+
+
+class Color(enum.IntEnum):
+    R = 0
+    G = 1
+    B = 2
+
+
+# name -> (declared data type, values written, defaults).  Values that are not instances of the declared type but convert to
+# it (True into an int state, 3 into a float state, 4 into a bool state -- e.g. an accumulator `acc or flags`) are legal
+# writes: the statement says they read back "with the declared type" (COERCE).  A declared type that is none of the typed
+# ones -- also a subclass of int / float such as an IntEnum or numpy.float64, which scan declares with type(seed) -- is an
+# object state: it reads back the very value written.
 TYPES = {
-    'int': (int, [0, 1, -1, 5, 2 ** 63 - 1, -2 ** 63, 123456789], [None, 5, -1, 0]),
+    'int': (int, [0, 1, -1, 5, 2 ** 63 - 1, -2 ** 63, 123456789, True], [None, 5, -1, 0]),
     'uint': ('uint', [0, 1, 7, 2 ** 64 - 1, 2 ** 32], [None, 0, 3]),
-    'float': (float, [0.0, -0.0, 1.5, -2.25, 1e308, 5e-324, float('inf')], [None, 1.5, 0.0]),
-    'bool': (bool, [True, False], [None, False, True]),
+    'float': (float, [0.0, -0.0, 1.5, -2.25, 1e308, 5e-324, float('inf'), 3, -7], [None, 1.5, 0.0]),
+    'bool': (bool, [True, False, 0, 1, 2, 4, 255], [None, False, True]),
     'obj': ('obj', [None, 0, 'x', (1, 2), 3.5, False, ''], [None, 'dflt', 0]),
+    'enum': (Color, [Color.R, Color.G, Color.B], [None, Color.B]),
+    'npfloat': (numpy.float64, [numpy.float64(1.5), numpy.float64(-0.0), numpy.float64(3.0)], [None, numpy.float64(2.5)]),
+    'str': (str, ['', 'a', 'xyz'], [None, 'd']),
 }
+COERCE = {'int': int, 'uint': int, 'float': float, 'bool': bool}
 MAPKEYS = [0, 1, 'a', (1, 2), None, 2.0, 10 ** 20]
 
 
@@ -127,7 +146,9 @@ class Sim(object):
             e = self.model[state][idx]
             self._call(state, 'set', e['key'], v)
             e['set'] = True
-            e['value'] = v
+            e['value'] = COERCE.get(self.config['type'], lambda x: x)(v) if state == 'T' else v
+            if state == 'T' and type(e['value']) is not type(v):
+                self.flags.add('coerced-write')
         elif k == 'get':
             _, state, idx = op
             self.read(state, idx)
@@ -194,11 +215,12 @@ class Sim(object):
         v = e['value']
         if got is NOTSET:
             self.bad('%s slot %d was written %r but reads NOTSET' % (state, idx, v))
+        objstate = state == 'O' or self.config['type'] not in COERCE
         same = (got == v) and (type(got) is type(v) or state == 'O')
         if isinstance(v, float) and isinstance(got, float) and v == 0.0:
             import math
             same = same and math.copysign(1, v) == math.copysign(1, got)
-        if state == 'O' and got is not v and not (got == v and type(got) is type(v)):
+        if objstate and got is not v and not (got == v and type(got) is type(v)):
             same = False
         if not same:
             self.bad('%s slot %d reads %r (%s), last written %r (%s)' % (state, idx, got, type(got).__name__, v, type(v).__name__))
@@ -217,7 +239,10 @@ class Sim(object):
                 e = self.model[state][i]
                 if bool(g[2]) != e['set']:
                     self.bad('iterate() reports is_set=%r for slot %d, model %r' % (g[2], i, e['set']))
-                if e['set'] and not (g[1] == e['value']):
+                gv = g[1]
+                if state == 'T' and self.config['type'] == 'bool':
+                    gv = bool(gv)       # iterate() hands out the stored byte of a bool state (1 for True); get() is what converts
+                if e['set'] and not (gv == e['value']):
                     self.bad('iterate() reports value %r for slot %d, last written %r' % (g[1], i, e['value']))
 
     def check_iter_map(self, idx):
@@ -280,7 +305,7 @@ def machine(record, focus=None):
             self.sim.step(['add', state, idx, parent])
 
         @precondition(lambda self: self.sim and (self.live('T') or self.live('O')))
-        @rule(state=st.sampled_from(['T', 'O']), n=st.integers(0, 5), vi=st.integers(0, 6))
+        @rule(state=st.sampled_from(['T', 'O']), n=st.integers(0, 5), vi=st.integers(0, 8))
         def set(self, state, n, vi):
             live = self.live(state) or self.live('T' if state == 'O' else 'O')
             state = state if self.live(state) else ('T' if state == 'O' else 'O')
